@@ -113,6 +113,22 @@ var props = map[string]*propCfg{
 		Technique:   "runtime monitor: before/after snapshots at the API boundary over generated operation sequences",
 		DesignRef:   "DESIGN.md §4 C09",
 	},
+	"C20": {
+		Rule:        "SetBitsExp(mant, exp): slices of 0..40 words (edge words, high zero words, low zero words, top word of 1..18 digits, all zero, all nines), exponents over all of int64 (both extremes, random 64-bit values, within 25 of either range end), receiver precision 1..60, smaller than the slice, or 0; six modes; receivers that held another value; oracle = +sum(m[i] B^i) x 10^(exp - 19 len) evaluated with a big.Int exponent (cannot wrap), rounded once by both models; all-zero => +0. BitsExp: values built through three routes (parser, arithmetic, raw) must be denoted exactly by the returned pair and by the independent 'p'-format read-out, with the exponent equal to the leading digit's. MantExp: exponent = leading digit's, mant in [0.1,1) with x's precision and mode, nil / fresh / same-variable out-parameter, ±0 and ±Inf special cases, x unchanged, and the documented identity SetMantExp(mant, x.MantExp(mant)) == x. SetMantExp(mant, k): exact mant x 10^k with k small, landing within 4 of either range end, anywhere in int, at the int64 extremes; ±0/±Inf exactly when the exponent leaves the range; attributes copied from mant; mant unchanged. Non-trivial = finite, non-empty inputs.",
+		Assumptions: []string{"for a precision-0 receiver of SetBitsExp the chosen precision is undocumented: only 'stored exactly and MinPrec <= Prec' is demanded", "accuracy after SetBitsExp is not part of the statement"},
+		Floors:      []floor{{"SetBitsExp/", 40000}, {"SetBitsExp/prec0", 3000}, {"BitsExp/", 10000}, {"MantExp/", 10000}, {"SetMantExp/range-end", 5000}, {"SetMantExp/int64-extreme", 2000}},
+		LevelText:   "Runtime monitoring of the raw access and MantExp/SetMantExp pairs against exact values with exponents evaluated in big.Int, over the whole int64 exponent space.",
+		Technique:   "runtime oracle monitoring: exact big.Int reference (non-wrapping exponent arithmetic), inverse-pair identities",
+		DesignRef:   "DESIGN.md §4 C20",
+	},
+	"C14": {
+		Rule:        "Getters (60%): values clustered at 2^63, 2^64, 10^18, 10^19, 10^20, 10^38 (+-3, with fractional parts of 1..30 digits incl. all-nines fractions, and integers written with positive exponents), exponents 0..25 (both sides of the x.exp <= 20 branch), moderate exponents to +-20 000, zeros and infinities; for each: Int (nil and provided destination), Int64, Uint64, Rat (nil and provided), IsInt, MinPrec compared with the exact rational (truncation toward zero, saturation values and accuracies as documented, Exact iff nothing discarded), x unchanged. Setters (40%): SetUint64/SetInt64 (edge values), SetInt (1..20 000 digits, powers of 2 and 10, all nines, rounding-aimed, zero), SetRat (random, terminating, exact quotients, integers), NewDecimal (exponents over all of int incl. both range ends and the int64 extremes) judged by both oracle models at the receiver's precision; with a precision-0 receiver an integer argument must be stored exactly; arguments unchanged; an exactly stored result must report Exact. Non-trivial = finite operands / every setter case.",
+		Assumptions: []string{"Int and Rat are exercised at |exponent| <= 20 000 (they materialise 10^|exp|)", "the accuracy returned by Int/Rat for an infinity is not in the statement and is not judged"},
+		Floors:      []floor{{"getter/around-boundaries", 30000}, {"getter/exp-0-25", 20000}, {"getter/inf", 3000}, {"SetInt", 10000}, {"SetRat", 10000}, {"NewDecimal", 10000}, {"precision0_integer_exact", 3000}},
+		LevelText:   "Runtime monitoring of every conversion against exact big.Int/big.Rat values, aimed at the saturation bounds and word boundaries.",
+		Technique:   "runtime oracle monitoring: exact big.Int/big.Rat reference on boundary-clustered inputs",
+		DesignRef:   "DESIGN.md §4 C14",
+	},
 }
 
 func writeManifest() {
